@@ -591,24 +591,81 @@ def arith_sites(f):
     return out, where
 
 
+VALUE_PATTERNS = ("Type2::UintValue", "Type2::IntValue", "Type2::FloatValue", "Value::Integer", "Value::Float", "Value::Number", "token::Value::UINT",
+                  "token::Value::INT", "token::Value::FLOAT", "Value::UINT", "Value::INT", "Value::FLOAT", "Header::Positive", "Header::Negative",
+                  "Occur::Exact", "TagConstraint::Literal")
+VALUE_CALLS = ("as_i64", "as_u64", "as_f64", "parse", "from_str_radix", "as_literal")
+
+
+def arith_value_sources(f):
+    """key -> description, for arithmetic sites one of whose operands names a variable bound to a document / schema number"""
+    out = {}
+    for file in sorted(f.files):
+        if not file.startswith("src/") or file in ("src/parser_tests.rs",):
+            continue
+        for fi in f.fns(file):
+            if fi.in_test:
+                continue
+            tainted = {}
+            for x in vf.walk(fi.node):
+                pats = []
+                if x["k"] == "arm":
+                    pats.append(x["pat"])
+                elif x["k"] == "let":
+                    pats.append(x["pat"])
+                    if any((c["k"] == "mcall" and c["m"] in VALUE_CALLS) for c in vf.walk(x["e"])):
+                        for n in vf.pat_bindings(x["pat"]):
+                            tainted[n] = "bound from `%s`" % vf.src(x["e"])[:40]
+                elif x["k"] == "local" and x.get("init") is not None:
+                    if any((c["k"] == "mcall" and c["m"] in VALUE_CALLS) or (c["k"] == "call" and vf.src(c["f"]) in ("i128::from", "i64::from", "u64::from"))
+                           for c in vf.walk(x["init"])):
+                        for n in vf.pat_bindings(x["pat"]):
+                            tainted[n] = "bound from `%s`" % vf.src(x["init"])[:40]
+                for p in pats:
+                    for y in vf.walk(p):
+                        pp = y.get("p")
+                        if y["k"] in ("pts", "pstruct") and isinstance(pp, str) and pp.endswith(VALUE_PATTERNS):
+                            for n in vf.pat_bindings(y):
+                                tainted[n] = "bound by pattern %s" % pp
+            if not tainted:
+                continue
+            for x in vf.walk(fi.node):
+                if x["k"] == "bin" and x["op"] in ARITH_OPS and not (x["a"]["k"] == "lit" and x["b"]["k"] == "lit"):
+                    names = {y["p"] for side in (x["a"], x["b"]) for y in vf.walk(side) if y["k"] == "path" and "::" not in y["p"]}
+                    hit = sorted(n for n in names if n in tainted)
+                    if hit:
+                        key = "%s|%s|%s" % (file, fi.qual, vf.src(x)[:90])
+                        out[key] = "`%s` %s" % (hit[0], tainted[hit[0]])
+    return out
+
+
 def r_arith(ctx):
     rid = "C05.arith"
     ctx.rule(rid, "every integer/float arithmetic expression (+ - * << and their assigning forms) in non-test code of the cddl crate is in the "
                   "reviewed table spec/c05_arith_reviewed.json, classified as structural (counters, lengths and positions bounded by the "
                   "size of data already in memory), widened/bounded (operands range-checked or widened first), float (cannot panic) or "
                   "value arithmetic on document/schema numbers; unchecked value arithmetic panics in overflow-checked builds and wraps "
-                  "otherwise, so a site of that class, or any site not in the table, is reported", floor=80)
+                  "otherwise, so a site of that class is reported; a site the table does not list is decided by provenance: reported when an operand is "
+                  "bound to a document or schema number (pattern on a numeric Value / literal node, as_i64/as_u64/as_f64, i128::from), accepted as "
+                  "structural otherwise", floor=80)
     rv = json.load(open(os.path.join(vf.VERIF, "spec", "c05_arith_reviewed.json")))
     sites, where = arith_sites(ctx.facts)
+    value_sources = arith_value_sources(ctx.facts)
     for key, n in sorted(sites.items()):
         file, line = where[key]
         ent = rv["sites"].get(key)
         ctx.site(rid, key, file, line, {"count": n, "class": ent["class"] if ent else None})
         if ent is None:
-            ctx.violation(rid, key, file, line, "arithmetic site not in the reviewed table (new, or its text changed): classify it — value arithmetic on "
-                          "document or schema numbers must be checked_*, saturating_* or widened")
-        elif n > ent.get("count", 1):
-            ctx.violation(rid, key + "|count", file, line, "%d occurrences, %d reviewed" % (n, ent.get("count", 1)))
+            # a site the table does not know (new code, or a reviewed expression whose text changed): decide it by provenance —
+            # only arithmetic on numbers taken from the document or from schema literals can be driven to overflow by an input
+            src = value_sources.get(key)
+            if src:
+                ctx.violation(rid, key, file, line, "unreviewed arithmetic on a number that comes from the document or the schema (%s): it must be "
+                              "checked_*, saturating_* or widened — plain operators panic in overflow-checked builds and wrap otherwise" % src)
+            else:
+                ctx.site(rid, key + "|auto-structural", file, line, {"note": "not in the reviewed table; operands are lengths, counters or positions"})
+        elif n > ent.get("count", 1) and (key in value_sources or ent["class"] != "structural"):
+            ctx.violation(rid, key + "|count", file, line, "%d occurrences of this expression, %d reviewed (class %s)" % (n, ent.get("count", 1), ent["class"]))
         elif ent["class"] == "unchecked-value":
             ctx.violation(rid, key, file, line, "unchecked arithmetic on a document/schema number: %s" % ent["why"])
 
